@@ -64,7 +64,9 @@ const mod = "example.com/c18"
 var fieldTypes = []string{"int", "string", "bool", "float64", "uint8", "int64", "[]string", "[]int", "[]byte", "map[string]int", "map[string]string", "map[int][]string", "*int", "*string", "*Inner", "Inner", "[]Inner", "map[string]Inner", "[3]int",
 	"time.Time", "time.Duration", "*time.Time", "other.Thing", "*other.Thing", "[]other.Thing", "map[other.Key]other.Thing", "error", "any", "interface{}", "io.Reader", "fmt.Stringer", "Label", "[]Label", "map[Label]int", "Label", "Label", "error", "other.Thing",
 	// a package whose name (meta) differs from its directory (kinds)
-	"meta.Kind", "[]meta.Spec", "*meta.Spec", "map[string]meta.Kind"}
+	"meta.Kind", "[]meta.Spec", "*meta.Spec", "map[string]meta.Kind",
+	// two foreign types with the same NAME from different packages, also inside one type literal
+	"meta.Thing", "*meta.Thing", "struct{ A other.Thing; B meta.Thing }", "map[other.Key]meta.Thing", "other.Thing"}
 
 var tagPool = []string{"", `json:"name"`, `json:"name,omitempty" description:"The name. Must be unique."`, `validate:"@string[1,10]"`, `x:"100%"`, `k:"a:b c" j:"d.e.f"`, `weird tag without key`, `yaml:"a.b" json:"-"`, `doc:"it's \"quoted\""`, `path:"example.com/x.Y"`}
 
@@ -159,6 +161,11 @@ type Kind string
 
 type Spec struct {
 	N int
+}
+
+// Thing: same type NAME as other.Thing
+type Thing struct {
+	M string
 }
 `
 
